@@ -399,7 +399,7 @@ def compilers_and_filesystem(tier, seed):
     chunks = [(pats[i:i + size], tree_list, seed + i, True) for i in range(0, len(pats), size)]
     # character sets: `!` negates only as the first character of a set, anywhere else it is a member; names with `!`
     # and `^` tell the two readings apart (checks A-D, no incremental pairs)
-    set_pats = ["[a!]", "[!a]", "[?!]", "x[a!]", "[a!]x", "[!a]x", "${*n}[a!]"]
+    set_pats = ["[a!]", "[!a]", "[?!]", "x[a!]", "[a!]x", "[!a]x", "${*n}[a!]", "[^a]", "x[^a]"]
     set_trees = [frozenset({"a", "!", "^", "b", "xa", "x!", "x^", "xb", "ax", "!x", "^x", "bx"}),
                  frozenset({"a", "!", "x!", "d/", "d/!", "d/a"})]
     chunks.append((set_pats, set_trees, seed, False))
